@@ -116,3 +116,120 @@ Proof.
   induction 1 as [|c p L _ IH]; intros X H; [exact H|]. apply IH.
   change ((c :: p) ++ X) with ([] ++ c :: (p ++ X)) in H. apply (U8_split_ascii 0 [] c (p ++ X) (le_n _) L H).
 Qed.
+
+(* ---------- escape_text ---------- *)
+Lemma escape_byte_ascii c : c < 128 -> Forall (fun x => x < 128) (escape_byte c).
+Proof.
+  intros L. destruct (special c) eqn:S.
+  - destruct (escape_byte_special c S) as [[-> E]|[[-> E]|[[-> E]|[[-> E]|[-> E]]]]]; rewrite E; repeat constructor.
+  - rewrite (escape_byte_plain c S). repeat constructor. exact L.
+Qed.
+
+Lemma U8_escape s : U8 s -> U8 (escape_text s).
+Proof.
+  induction 1 as [|ch s V _ IH]; [constructor|]. rewrite escape_text_app. apply U8_app; [|exact IH].
+  destruct (vchar_shape ch V) as [(c & -> & L)|F].
+  - cbn [escape_text flat_map]. rewrite app_nil_r. apply U8_ascii, escape_byte_ascii, L.
+  - rewrite escape_text_plain.
+    + rewrite <- (app_nil_r ch). constructor; [exact V|constructor].
+    + apply forallb_forall. intros x Hx. rewrite Forall_forall in F. specialize (F x Hx). apply negb_true_iff.
+      unfold special. repeat (apply orb_false_iff; split); apply N.eqb_neq; lia.
+Qed.
+
+(* ---------- char::from_u32 values encode to one valid character ---------- *)
+Ltac bool_arith :=
+  repeat match goal with
+         | |- context [?a =? ?b] => destruct (N.eqb_spec a b); try lia
+         | |- context [?a <? ?b] => destruct (N.ltb_spec a b); try lia
+         | |- context [?a <=? ?b] => destruct (N.leb_spec a b); try lia
+         end.
+
+Lemma divmod64 v : exists q r, v / 64 = q /\ v mod 64 = r /\ v = 64 * q + r /\ r < 64.
+Proof.
+  exists (v / 64), (v mod 64). split; [reflexivity|]. split; [reflexivity|].
+  split; [apply N.div_mod; discriminate|apply N.mod_lt; discriminate].
+Qed.
+
+Lemma vchar_encode v : is_char v = true -> vchar (utf8_encode v).
+Proof.
+  unfold is_char, in_rng. rewrite andb_true_iff, negb_true_iff, andb_false_iff, !N.leb_le, !N.leb_gt. intros [MAX SUR].
+  destruct (divmod64 v) as (A & rA & EA & ErA & DA & LA).
+  destruct (divmod64 A) as (B & rB & EB & ErB & DB & LB).
+  destruct (divmod64 B) as (C & rC & EC & ErC & DC & LC).
+  assert (E4096 : v / 4096 = B) by (change 4096 with (64 * 64); rewrite <- N.div_div by discriminate; rewrite EA; exact EB).
+  assert (E262144 : v / 262144 = C) by (change 262144 with (4096 * 64); rewrite <- N.div_div by discriminate; rewrite E4096; exact EC).
+  unfold utf8_encode. rewrite EA, ErA, E4096, E262144. rewrite ErB, ErC.
+  clear EA ErA EB ErB EC ErC E4096 E262144.
+  destruct (N.ltb_spec v 128); [apply vchar_ascii; assumption|].
+  destruct (N.ltb_spec v 2048).
+  - split; [discriminate|]. unfold utf8_chunk, in_rng, is_cont, in_rng. cbn [List.length]. bool_arith; reflexivity.
+  - destruct (N.ltb_spec v 65536).
+    + split; [discriminate|]. unfold utf8_chunk, in_rng, is_cont, in_rng. cbn [List.length]. bool_arith; reflexivity.
+    + split; [discriminate|]. unfold utf8_chunk, in_rng, is_cont, in_rng. cbn [List.length]. bool_arith; reflexivity.
+Qed.
+
+(* ---------- strict unescaping ---------- *)
+Lemma starts_with_split p : forall l, starts_with p l = true -> l = p ++ skipn (List.length p) l.
+Proof.
+  induction p as [|x p IH]; intros l H; [reflexivity|]. destruct l as [|y l]; [discriminate H|]. cbn [starts_with] in H.
+  apply andb_true_iff in H as [E H]. apply N.eqb_eq in E. subst y. cbn [app List.length skipn]. f_equal. apply IH, H.
+Qed.
+
+Lemma U8_after_prefix p l : Forall (fun c => c < 128) p -> starts_with p l = true -> U8 l -> U8 (skipn (List.length p) l).
+Proof. intros F S H. rewrite (starts_with_split p l S) in H. exact (U8_drop_ascii p F _ H). Qed.
+
+Lemma U8_snoc_ascii acc c : U8 acc -> c < 128 -> U8 (acc ++ [c]).
+Proof. intros H L. apply U8_app; [exact H|]. apply U8_ascii. repeat constructor. exact L. Qed.
+
+Lemma U8_unescape_loop fuel : forall rem acc st u st', U8 acc -> U8 rem ->
+  unescape_loop true fuel rem acc st = Val (Ret u st') -> U8 u.
+Proof.
+  induction fuel as [|f IH]; intros rem acc st u st' UA UR H; [discriminate H|]. cbn [unescape_loop] in H.
+  destruct (find_byte 38 rem) as [pos|] eqn:F; [|injection H as <- _; apply U8_app; assumption].
+  unfold find_byte in F. destruct (position_split _ _ F) as (x & Hx & SPLIT). apply N.eqb_eq in Hx. subst x.
+  rewrite SPLIT in UR. destruct (U8_split_ascii (List.length (firstn pos rem)) _ 38 _ (le_n _) ltac:(reflexivity) UR) as [UP UT].
+  set (rem' := skipn pos rem) in *.
+  assert (ER : rem' = 38 :: skipn (S pos) rem).
+  { unfold rem'. rewrite SPLIT at 1. pose proof (position_Some _ _ F) as (LT & _ & _).
+    rewrite skipn_app, firstn_length. replace (Nat.min pos (List.length rem)) with pos by lia. rewrite Nat.sub_diag.
+    rewrite skipn_all2 by (rewrite firstn_length; lia). reflexivity. }
+  assert (UR' : U8 rem').
+  { rewrite ER. change (38 :: skipn (S pos) rem) with ([38] ++ skipn (S pos) rem). constructor; [apply vchar_ascii; reflexivity|exact UT]. }
+  set (acc' := acc ++ firstn pos rem) in *. assert (UA' : U8 acc') by (apply U8_app; assumption).
+  assert (INV : forall a, mbind (optional_error true InvalidXmlEntity 0 0) (fun _ => unescape_loop true f (skipn 1 rem') a) st = Val (Ret u st') -> U8 u).
+  { intros a HH. inv HH as u1 s1 E1. destruct (oe_strict_ret _ _ _ _ _ _ E1). }
+  assert (NAMED : forall p c, Forall (fun x => x < 128) p -> c < 128 -> starts_with p rem' = true ->
+            unescape_loop true f (skipn (List.length p) rem') (acc' ++ [c]) st = Val (Ret u st') -> U8 u).
+  { intros p c FP LC SW HH. eapply IH; [|exact (U8_after_prefix p rem' FP SW UR')|exact HH]. apply U8_snoc_ascii; assumption. }
+  assert (REF : forall endpos v, find_byte 59 rem' = Some endpos -> is_char v = true ->
+            unescape_loop true f (skipn (S endpos) rem') (acc' ++ utf8_encode v) st = Val (Ret u st') -> U8 u).
+  { intros endpos v FE IC HH. unfold find_byte in FE. destruct (position_split _ _ FE) as (y & Hy & SP2). apply N.eqb_eq in Hy. subst y.
+    rewrite SP2 in UR'. destruct (U8_split_ascii (List.length (firstn endpos rem')) _ 59 _ (le_n _) ltac:(reflexivity) UR') as [_ UT2].
+    eapply IH; [|exact UT2|exact HH]. apply U8_app; [exact UA'|]. rewrite <- (app_nil_r (utf8_encode v)).
+    constructor; [apply vchar_encode; exact IC|constructor]. }
+  destruct (starts_with (BS "&lt;") rem') eqn:S1; [apply (NAMED (BS "&lt;") 60 ltac:(repeat constructor) ltac:(reflexivity) S1 H)|].
+  destruct (starts_with (BS "&gt;") rem') eqn:S2; [apply (NAMED (BS "&gt;") 62 ltac:(repeat constructor) ltac:(reflexivity) S2 H)|].
+  destruct (starts_with (BS "&amp;") rem') eqn:S3; [apply (NAMED (BS "&amp;") 38 ltac:(repeat constructor) ltac:(reflexivity) S3 H)|].
+  destruct (starts_with (BS "&apos;") rem') eqn:S4; [apply (NAMED (BS "&apos;") 39 ltac:(repeat constructor) ltac:(reflexivity) S4 H)|].
+  destruct (starts_with (BS "&quot;") rem') eqn:S5; [apply (NAMED (BS "&quot;") 34 ltac:(repeat constructor) ltac:(reflexivity) S5 H)|].
+  destruct (starts_with (BS "&#x") rem').
+  { destruct (find_byte 59 rem') as [endpos|] eqn:F2; [|apply (INV _ H)]. cbv zeta in H.
+    destruct (starts_with [43] (firstn (endpos - 3) (skipn 3 rem'))); [apply (INV _ H)|].
+    destruct (from_str_radix_u 32 16 (firstn (endpos - 3) (skipn 3 rem'))) as [v|]; [|apply (INV _ H)].
+    destruct (is_char v) eqn:IC; [|apply (INV _ H)]. exact (REF endpos v eq_refl IC H). }
+  destruct (starts_with (BS "&#") rem').
+  { destruct (find_byte 59 rem') as [endpos|] eqn:F2; [|apply (INV _ H)]. cbv zeta in H.
+    destruct (starts_with [43] (firstn (endpos - 2) (skipn 2 rem'))); [apply (INV _ H)|].
+    destruct (from_str_radix_u 32 10 (firstn (endpos - 2) (skipn 2 rem'))) as [v|]; [|apply (INV _ H)].
+    destruct (is_char v) eqn:IC; [|apply (INV _ H)]. exact (REF endpos v eq_refl IC H). }
+  apply (INV _ H).
+Qed.
+
+(* the closure used by RoundTripCanon: valid text, unescaped strictly and escaped again, is valid *)
+Theorem utf8_unescape_escape raw u st st' : utf8_valid raw = true -> unescape_string true raw st = Val (Ret u st') ->
+  utf8_valid (escape_text u) = true.
+Proof.
+  intros V H. apply valid_U8, U8_escape. apply valid_U8 in V. unfold unescape_string in H.
+  destruct (find_byte 38 raw); [|injection H as <- _; exact V].
+  eapply U8_unescape_loop; [constructor|exact V|exact H].
+Qed.
